@@ -159,7 +159,12 @@ func (e *Engine) installIntrinsics() {
 		return nil
 	}
 	in[hp+"vfReach"] = func(m *machine, _ *frame, _ *ssa.Function, args []value) value {
-		m.witnesses = append(m.witnesses, concStr(m, args[0], "witness id"))
+		id := concStr(m, args[0], "witness id")
+		m.witnesses = append(m.witnesses, id)
+		if m.eng.params["twin"] == 1 {
+			// vacuity twin: reaching the end of the harness must be reported
+			m.violate("assert", "twin-"+id, "vacuity twin reached "+id)
+		}
 		return nil
 	}
 	in[hp+"vfAllocBound"] = func(m *machine, _ *frame, _ *ssa.Function, args []value) value {
@@ -232,6 +237,12 @@ func (e *Engine) installIntrinsics() {
 	// consecutive clock readings (stated as an assumption by the harness)
 	in[hp+"vfClockMaxStep"] = func(m *machine, _ *frame, _ *ssa.Function, args []value) value {
 		m.side["clockstep"] = args[0].(*Term)
+		return nil
+	}
+	// vfUnwind(n): every loop head on this path may be visited at most n times
+	// per call frame; exceeding it is reported (used as the "hang" detector)
+	in[hp+"vfUnwind"] = func(m *machine, _ *frame, _ *ssa.Function, args []value) value {
+		m.unwind = m.concInt(args[0], "vfUnwind")
 		return nil
 	}
 	in[hp+"vfHeldBy"] = func(m *machine, _ *frame, _ *ssa.Function, args []value) value {
